@@ -457,8 +457,11 @@ def build_harness(name, sanitize=False, extra_flags=()):
              "-I" + os.path.join(VERIF, "harness"), "-D" + GUARD] + list(extra_flags)
     if sanitize:
         flags += ["-fsanitize=address,undefined", "-fno-sanitize-recover=all", "-fno-omit-frame-pointer"]
+    cov = bool(os.environ.get("VERIF_COV"))   # tools/coverage.py: which library lines do the harnesses reach
+    if cov:
+        flags = [f for f in flags if f != "-O1"] + ["-O0", "--coverage"]
     key = sha_files(incs + hdrs + [src], extra=" ".join(flags))
-    exe = os.path.join(bdir, name + ("-san" if sanitize else ""))
+    exe = os.path.join(bdir, name + ("-san" if sanitize else "") + ("-cov" if cov else ""))
     stamp = exe + ".stamp"
     with Lock("h_" + name + ("-san" if sanitize else "")):
         if os.path.exists(exe) and os.path.exists(stamp) and open(stamp).read() == key:
